@@ -123,6 +123,9 @@ func (c *CommandStep) interpolate(tf stringTransformer) error {
 		if err := c.Matrix.interpolate(tf); err != nil {
 			return fmt.Errorf("interpolating matrix: %w", err)
 		}
+		if err := c.Cache.interpolate(tf); err != nil {
+			return fmt.Errorf("interpolating cache: %w", err)
+		}
 
 	case matrixInterpolator:
 		// Matrix interpolation applies only to some things, but particularly
